@@ -4,7 +4,8 @@
    rows only and every answer is a function of the logical rows. *)
 From Coq Require Import List Arith Bool NArith ZArith Lia.
 From LMBase Require Import Res.
-From LMMaxi Require Import MaxiModel MaxiProofs MaxiBuffer.
+From LMBase Require Import IEEE.
+From LMMaxi Require Import MaxiModel MaxiProofs MaxiKernels MaxiIEEE MaxiTop MaxiBuffer.
 Import ListNotations.
 
 Section BufferProofs.
@@ -304,3 +305,83 @@ Lemma as_coded_on_stale_ops :
             buf_argmax_generic Z.leb b = Ok (Some (0, 1)) /\
             buf_threshold_generic Z.leb b 5%Z = [].
 Proof. eexists. split; [reflexivity|]. vm_compute. repeat split. Qed.
+
+(* ---- the dispatcher on a reused buffer ---- *)
+Section BufDispatchProofs.
+  Context {T : Type}.
+  Variable le lt : T -> T -> bool.
+  Variable vmax smax : T -> T -> T.
+  Variable ninf : T.
+  Variable dflt : T.
+  Variable C : nat.
+
+  Theorem history_dispatch_f32 : forall ops (b : @buffer T),
+    b_run C (vec_resize dflt C) b_empty ops = Ok b ->
+    forall (a : arm) (mi : N) (t : T),
+    buf_dispatch_argmax_f32 le lt ninf a mi b = dispatch_argmax_f32 le lt ninf a mi (b_logical b) /\
+    buf_dispatch_max_f32 le vmax smax a b = dispatch_max_f32 le vmax smax a (b_logical b) /\
+    buf_dispatch_threshold le a b t = dispatch_threshold le a (b_logical b) t.
+  Proof.
+    intros ops b H a mi t.
+    assert (Hb : binv C b) by (eapply (b_run_inv dflt C); [apply binv_empty | exact H]).
+    split; [|split].
+    - destruct a; cbn [buf_dispatch_argmax_f32 dispatch_argmax_f32]; try reflexivity.
+      now apply (buf_argmax_generic_logical le C).
+    - destruct a; cbn [buf_dispatch_max_f32 dispatch_max_f32]; try reflexivity;
+        now apply (buf_max_generic_logical le C).
+    - unfold buf_dispatch_threshold, dispatch_threshold. now apply (buf_threshold_generic_logical le C).
+  Qed.
+End BufDispatchProofs.
+
+Theorem history_dispatch_u8 : forall (C : nat) ops (b : @buffer Z),
+  b_run C (vec_resize 0%Z C) b_empty ops = Ok b ->
+  forall (a : arm),
+  buf_dispatch_argmax_u8 a b = dispatch_argmax_u8 a (b_logical b) /\
+  buf_dispatch_max_u8 a b = dispatch_max_u8 a (b_logical b).
+Proof.
+  intros C ops b H a.
+  assert (Hb : binv C b) by (eapply (b_run_inv 0%Z C); [apply binv_empty | exact H]).
+  split; destruct a; cbn [buf_dispatch_argmax_u8 dispatch_argmax_u8 buf_dispatch_max_u8 dispatch_max_u8];
+    try reflexivity; (now apply (buf_argmax_generic_logical Z.leb C)) || (now apply (buf_max_generic_logical Z.leb C)).
+Qed.
+
+
+
+Theorem history_all_arms_f32 :
+  forall (ops : list (@bop F32.t)) (b : @buffer F32.t) (a : arm) (max_index : N) (t : F32.t),
+  b_run 32 (vec_resize F32.zero 32) b_empty ops = Ok b ->
+  all_good f32_good (b_logical b) -> rows_fit32 (b_logical b) -> index_fits32 max_index ->
+  (exists o, buf_dispatch_argmax_f32 F32.le F32.lt F32.ninf a max_index b = Ok o /\ argmax_spec F32.le 32 (b_logical b) o) /\
+  (exists o, buf_dispatch_max_f32 F32.le F32.max_x86 F32.max a b = Ok o /\ max_spec F32.le (b_logical b) o) /\
+  threshold_spec F32.le (b_logical b) t (buf_dispatch_threshold F32.le a b t).
+Proof.
+  intros ops b a mi t H G R I.
+  destruct (history_dispatch_f32 F32.le F32.lt F32.max_x86 F32.max F32.ninf F32.zero 32 ops b H a mi t) as (E1 & E2 & E3).
+  rewrite E1, E2, E3.
+  assert (W : wf 32 (b_logical b)).
+  { assert (Hb : binv 32 b) by (eapply (b_run_inv F32.zero 32); [apply binv_empty | exact H]).
+    rewrite <- (iter_is_logical 32 b Hb). apply Hb. }
+  destruct f32_order_facts as [PO Hlt Hv Hs Hgn Hbt]. split; [|split].
+  - exact (dispatch_argmax_f32_ok F32.le F32.lt f32_good PO Hlt F32.ninf Hgn Hbt a mi (b_logical b) W G R I).
+  - exact (dispatch_max_f32_ok F32.le f32_good PO F32.max_x86 F32.max Hv Hs a (b_logical b) W G).
+  - exact (threshold_generic_ok F32.le (b_logical b) t).
+Qed.
+
+Theorem history_all_arms_u8 :
+  forall (ops : list (@bop Z)) (b : @buffer Z) (a : arm) (t : Z),
+  b_run 32 (vec_resize 0%Z 32) b_empty ops = Ok b -> u8_matrix (b_logical b) ->
+  (rows_fit16 (b_logical b) -> exists o, buf_dispatch_argmax_u8 a b = Ok o /\ argmax_spec Z.leb 32 (b_logical b) o) /\
+  (exists o, buf_dispatch_max_u8 a b = Ok o /\ max_spec Z.leb (b_logical b) o) /\
+  threshold_spec Z.leb (b_logical b) t (buf_dispatch_threshold Z.leb a b t).
+Proof.
+  intros ops b a t H U.
+  destruct (history_dispatch_u8 32 ops b H a) as (E1 & E2). rewrite E1, E2.
+  assert (Hb : binv 32 b) by (eapply (b_run_inv 0%Z 32); [apply binv_empty | exact H]).
+  assert (W : wf 32 (b_logical b)) by (rewrite <- (iter_is_logical 32 b Hb); apply Hb).
+  split; [|split].
+  - intros Hr. exact (dispatch_argmax_u8_ok a (b_logical b) W U Hr).
+  - exact (dispatch_max_u8_ok a (b_logical b) W U).
+  - unfold buf_dispatch_threshold. rewrite (buf_threshold_generic_logical Z.leb 32 b t Hb).
+    exact (threshold_generic_ok Z.leb (b_logical b) t).
+Qed.
+
